@@ -49,6 +49,8 @@ def work(spec):
     if "scale" in spec:
         all_ = programs.scale_sources(r, small=spec["scale"] < 16, large=16 <= spec["scale"] < 32)
         srcs.append(all_[spec["scale"] % len(all_)])
+        if spec["scale"] % 8 == 0:
+            srcs += programs.no_variable_sources(r)     # root scripts without any variable: PREPARE with count 0, empty stack map
     for k in range(spec["n"]):
         m = k % 8
         if m < 5:
